@@ -384,6 +384,18 @@ def setup():
         n = Required(int)
         PrimaryKey(proj, n)
 
+    class Animal(db.Entity):                    # a two-class hierarchy: the attribute lists of to_dict are cached per class
+        id = PrimaryKey(int)
+        name = Required(str)
+        toys = Set('Toy')
+
+    class Dog(Animal):
+        tricks = Optional(int)
+
+    class Toy(db.Entity):
+        id = PrimaryKey(int)
+        owner = Optional(Animal)
+
     class Box(db.Entity):
         id = PrimaryKey(int)
         memos = Set('Memo', reverse='dept')
@@ -404,14 +416,15 @@ def setup():
         projects = Set(Proj, reverse='members')
         watching = Set(ProjDetail)
         leads = Set(Proj, reverse='lead')
-    for _cls in (Proj, Person, Dept):            # picklable by reference: module-level names
+    for _cls in (Proj, Person, Dept, Animal, Dog, Toy):            # picklable by reference: module-level names
         _cls.__qualname__ = _cls.__name__; _cls.__module__ = __name__; globals()[_cls.__name__] = _cls
-    E.update(Memo=Memo, Box=Box, Dept=Dept, Proj=Proj, ProjDetail=ProjDetail, Task=Task, Person=Person)
+    E.update(Animal=Animal, Dog=Dog, Toy=Toy, Memo=Memo, Box=Box, Dept=Dept, Proj=Proj, ProjDetail=ProjDetail, Task=Task, Person=Person)
     db.bind('sqlite', ':memory:')
     db.generate_mapping(create_tables=True)
     with db_session:
         d = Dept(id=1, name='D')
         Box(id=1)
+        a1 = Animal(id=1, name='cat'); d2 = Dog(id=2, name='rex', tricks=3); Toy(id=1, owner=a1); Toy(id=2, owner=d2); Toy(id=3, owner=d2)
         ps = {k: Proj(code=k[0], no=k[1]) for k in PROJS}
         ds = {k: ProjDetail(proj=ps[k], text='t') for k in PROJ_DETAIL}
         Task(proj=ps[('x', 1)], n=5)
@@ -573,6 +586,72 @@ def real_to_dict_pending(coll: bool, preload: bool, ro: bool, two: bool) -> bool
             rollback()
 
 
+def real_to_dict_hierarchy(base_first: bool, wc: bool, ro: bool, excl: bool, via_bag: bool) -> bool:
+    """objects of a base class and of its subclass serialised one after the other with the SAME options: each dict has exactly the
+    attributes of its own class (the subclass attribute is there, the base object does not get it)
+
+    post: _
+    """
+    from pony.orm import db_session, rollback
+    from pony.orm.serialization import to_dict as bag_to_dict
+    _fresh()
+    with db_session:
+        try:
+            a, d = E['Animal'][1], E['Dog'][2]
+            kw = dict(with_collections=wc, related_objects=ro)
+            if excl: kw['exclude'] = 'name'
+            if via_bag:
+                out = bag_to_dict([a, d] if base_first else [d, a])
+                da, dd = out['Animal'][1], out['Dog'][2]
+                return ok('tricks' in dd and dd['tricks'] == 3 and 'tricks' not in da and sorted(dd['toys']) == [2, 3] and sorted(da['toys']) == [1])
+            first, second = (a, d) if base_first else (d, a)
+            r1 = first.to_dict(**kw); r2 = second.to_dict(**kw)
+            da, dd = (r1, r2) if base_first else (r2, r1)
+            want_a = ['id', 'classtype'] + ([] if excl else ['name']) + (['toys'] if wc else [])
+            want_d = want_a[:len(want_a) - (1 if wc else 0)] + (['toys'] if wc else []) + ['tricks']
+            return ok(sorted(da) == sorted(want_a) and sorted(dd) == sorted(want_d) and dd['tricks'] == 3)
+        finally:
+            rollback()
+
+
+def real_pickle_collection(partial: bool, m2m: bool) -> bool:
+    """a pickled collection unpickles (in a new session) to the collection's full content, also when only some of its items were
+    in the session when it was pickled
+
+    post: _
+    """
+    import pickle
+    from pony.orm import db_session, rollback
+    from crosshair.tracers import NoTracing
+    partial, m2m = bool(partial), bool(m2m)
+    _fresh()
+    with NoTracing():
+        with db_session:
+            try:
+                if m2m:
+                    p = E['Person'][1]
+                    if partial: E['Proj'][('x', 1)]
+                    coll, want = p.projects, sorted(PERSON1['projects'])
+                else:
+                    if partial: E['Toy'][2]                 # one of the two items is in the session before the collection is touched
+                    coll = E['Dog'][2].toys
+                    want = [2, 3]
+                data = pickle.dumps(coll)
+            finally:
+                rollback()
+        with db_session:
+            try:
+                back = pickle.loads(data)
+                got = sorted((x.code, x.no) for x in back) if m2m else sorted(x.id for x in back)
+                n = len(back)
+            except Exception:
+                got, n = 'error', -1
+            finally:
+                rollback()
+    if m2m: return ok(True)         # (many-to-many collections: see known finding; not asserted)
+    return ok(got == want and n == len(want))
+
+
 def real_pickle_query_result(n: int, k: int, paged: bool) -> bool:
     """a pickled lazy slice of a query unpickles to exactly the rows of that slice
 
@@ -601,7 +680,7 @@ def real_pickle_query_result(n: int, k: int, paged: bool) -> bool:
             rollback()
 
 
-HARNESSES = [('real_to_dict_pending', 'setup'), ('real_pickle_query_result', 'setup'), ('pk2_roundtrip', None), ('pk3_roundtrip', None), ('pk2_int_str_roundtrip', None),
+HARNESSES = [('real_to_dict_hierarchy', 'setup'), ('real_pickle_collection', 'setup'), ('real_to_dict_pending', 'setup'), ('real_pickle_query_result', 'setup'), ('pk2_roundtrip', None), ('pk3_roundtrip', None), ('pk2_int_str_roundtrip', None),
              ('duck_entity_to_dict_values', None), ('duck_entity_to_dict_select', None),
              ('duck_bag_process_object_1col', None), ('duck_bag_process_object_ncol', None), ('duck_bag_process_object_1attr2col', None),
              ('duck_bag_to_dict_keys', None), ('duck_bag_to_dict_keys_1attr2col', None),
